@@ -20,7 +20,8 @@ EXPLANATION = (
     "entries (no aggregate with a default), and accepts only after the bound test; (R3s) the settings validator and the LDL "
     "dispatcher compare the same function of the stored method string."
     " R3 also: the parse entry point rejects trailing input (from_str / from_slice / from_reader, or Deserializer::end before the constructor)."
-    " (R6) units premises re-run: the stored data carry exactly the recorded scalings d, e, c (what the export divides by).")
+    " (R6) units premises re-run: the stored data carry exactly the recorded scalings d, e, c (what the export divides by)."
+    ' R3 also: nothing looks inside a matrix from the file (nnz(), indexing) before check_format has accepted it - not in the validator and not in its error formatters.')
 ASSUMPTIONS = ['rustc MIR construction and trait resolution are correct',
                'serde_json reports malformed / truncated text as Err', 'the closures of CscMatrix::check_format mean what they say for every column (index arithmetic of the slices: C16 territory)']
 
@@ -227,6 +228,33 @@ def load_discipline(rep, F, G, tag):
             else:
                 if len(val) >= len(RELATIONS):
                     R.check(is_ok, 'accepts-valid' + tag, 'the validator rejects consistent data: %s' % out, vf.loc())
+        # until check_format has accepted a matrix nothing may look inside it: methods that index colptr / rowval (nnz() is colptr[n]) panic on
+        # exactly the inconsistencies check_format exists to report.  Field-only queries are harmless.  Closures of the validator (error
+        # formatters run when a check failed) may use the field-only queries only.
+        SAFE = {'check_format', 'size', 'nrows', 'ncols', 'is_square', 'fmt', 'clone', 'deref', 'as_ref', 'borrow'}
+        def csc_calls(g):
+            return [c for c in g.calls if c.args and 'CscMatrix<' in re.sub(r'^&(mut )?', '', g.operand_ty(c.args[0]) if hasattr(g, 'operand_ty') else '') ]
+        def recv_is_csc(g, c):
+            if not c.args:
+                return False
+            a = c.args[0]
+            pl = a.get('c') or a.get('m')
+            if not pl:
+                return False
+            ty = g.local_ty(pl['l'])
+            return re.fullmatch(r'&*(mut )?&*(algebra::csc::core::)?CscMatrix<.*>', ty.strip()) is not None and not pl.get('p')
+        cfs = [c for c in vf.calls if c.callee.name == 'check_format']
+        R.check(len(cfs) >= 2, 'validator-checks-both' + tag, 'the validator calls check_format %d times (P and A expected)' % len(cfs), vf.loc())
+        for c in vf.calls:
+            if recv_is_csc(vf, c) and c.callee.name not in SAFE:
+                R.check(all(vf.dominates(x.bb, c.bb) and x.bb != c.bb for x in cfs), 'untrusted-before-format|%s%s' % (c.callee.name, tag),
+                        'the validator calls %s on a matrix from the file before check_format has accepted it' % c.callee.name, vf.loc(c.sp))
+        for g in F.closures_of.get(vf.key, []):
+            for c in g.calls:
+                if recv_is_csc(g, c) and c.callee.name not in SAFE:
+                    R.bad('untrusted-in-error-path|%s%s' % (c.callee.name, tag),
+                          'an error formatter of the validator calls %s on the rejected matrix: it indexes the arrays whose inconsistency is being reported, so a '
+                          'malformed file panics instead of returning Err' % c.callee.name, g.loc(c.sp))
         # the whole file is one problem: the parse entry point must reject trailing input.  serde_json::from_str / from_slice /
         # from_reader do (they call Deserializer::end); a hand-driven Deserializer must be followed by end() before the constructor
         whole = [c for c in lf.calls if (c.callee.key or '') in ('serde_json::from_str', 'serde_json::from_slice', 'serde_json::from_reader',
